@@ -639,6 +639,7 @@ pub fn run_case(
             Some(_) => stats.done_checked += 1,
             None => {}
         }
+        let mut order_ref: Vec<Option<Vec<EffObs>>> = vec![None; modes.len()];
         for (i, slot) in hosts.iter_mut().enumerate() {
             if dead[i] {
                 continue;
@@ -647,6 +648,25 @@ pub fn run_case(
             let model = &models[slot.model];
             let pred = &preds[slot.model];
             let obs = with_slot(i, || host.act(&action));
+            // order of the requests of one call: bridge image vs typed twin
+            if !obs.partial {
+                if !caps[i].order_twin {
+                    if order_ref[slot.model].is_none() && host.name().starts_with("Core") {
+                        order_ref[slot.model] = Some(obs.effects.clone());
+                    }
+                } else if let Some(reference) = &order_ref[slot.model] {
+                    if *reference != obs.effects && sorted(reference) == sorted(&obs.effects) {
+                        findings.push(Finding {
+                            signature: format!("effects/order-differs-from-typed-core@{}", host.name()),
+                            what: "the bridge hands over the requests of one call in a different order than the typed core returns its effects".into(),
+                            host: host.name().to_string(),
+                            step,
+                            detail: json!({"typed_core": reference, "bridge": obs.effects}),
+                        });
+                        dead[i] = true;
+                    }
+                }
+            }
             // the verdict on the resolution itself is known at once, also for a lagging host
             let partial = obs.partial;
             if partial {
